@@ -2004,6 +2004,155 @@ def invoke_eval(case):
     return outs, canon_outs, lines, (verdict, None)
 
 
+# ------------------------------------------------------------------ round 10b: every kind of YAML ROOT the safe loader can build
+
+YAML_ROOTS = [
+    # bytes
+    "!!binary aGk=", "!!binary |\n  aGVsbG8gd29ybGQ=\n", "!!binary \"aGk=\"", "--- !!binary aGk=", "!!binary ''", "&b !!binary aGk=",
+    # dates / datetimes
+    "2020-02-29", "!!timestamp 2001-12-14", "2001-12-14t21:59:43.10-05:00", "2019-12-31 23:59:59", "!!timestamp '2020-01-01 00:00:00'",
+    "--- 2002-12-14", "2001-12-14 21:59:43.10 -5",
+    # sets, ordered maps, pairs
+    "!!set {a, b}", "!!set {}", "!!set\n? a\n? b", "--- !!set\n? x", "!!omap [a: 1, b: 2]", "!!omap\n- a: 1\n- b: 2", "!!omap []",
+    "!!pairs [a: 1, a: 2]", "!!pairs\n- a: 1\n- a: 2", "!!pairs []",
+    # python tags: the safe loader refuses
+    "!!python/tuple [1, 2]", "!!python/object:os.system {}", "!!python/name:os.system", "!!python/object/apply:os.system [ls]",
+    "!!python/dict {a: 1}", "!!python/list [1]", "!!python/str abc", "!!python/none ~", "!!python/bytes aGk=", "a: !!python/tuple [1]",
+    "!python/tuple [1]", "!foo bar", "!!unknown x", "!<tag:yaml.org,2002:python/tuple> [1]",
+    # plain scalars of every resolver kind
+    "abc", "123", "-0x1F", "0o17", "1_000", "3.14", "1e3", ".inf", "-.INF", ".nan", "true", "False", "yes", "off", "~", "null", "Null", "",
+    "'quoted'", "\"dq\"", "|\n  block\n  text\n", ">\n  folded\n", "!!str 123", "!!int '7'", "!!float 1", "!!bool yes", "!!null ''",
+    "= ", "<<", "!!merge <<", "!!value =",
+    # anchors / aliases at the root
+    "&a abc", "&a 1", "&a [1, 2]", "&a {k: v}", "&a [*a]", "*a", "&a\n", "--- &r\n- *r",
+    # empty containers, document markers, several documents
+    "{}", "[]", "--- {}", "--- []", "{}\n...", "---", "--- ", "...", "---\n...", "---\n---", "--- ~", "--- |\n  x", "a: 1\n---\nb: 2",
+    "---\na: 1\n---\nb: 2", "a: 1\n...\n---\nb: 2", "- 1\n--- \n- 2", "a: 1\n...", "--- a: 1", "%YAML 1.1\n---\na: 1", "%YAML 1.1\n--- !!binary aGk=",
+    "%TAG ! tag:yaml.org,2002:\n--- !set {a}", "# only\n# comments", "--- # c\n", "﻿a: 1", "a: 1\n\x00",
+    # nested: typed scalars INSIDE a container still load
+    "k: !!binary aGk=", "- !!binary |\n    aGk=", "d: 2020-02-29", "s: !!set {a, b}", "o: !!omap [a: 1]", "p: !!pairs [a: 1, a: 2]",
+    "- !!set {x}\n- 2001-12-14", "{k: !!binary aGk=, t: 2001-12-14t21:59:43Z}", "? !!binary aGk=\n: v", "? 2020-01-01\n: v", "? [a, b]\n: v",
+    "? {a: 1}\n: v", "!!map {a: 1}", "!!seq [1]", "!!map []", "!!seq {}",
+]
+YAML_ROOT_WRAP = ["%s", "---\n%s", "%s\n...", "# comment\n%s", "%s\n# trailing", "\n%s\n", "--- # doc\n%s"]
+
+
+def yaml_root_cases(rng, nrandom):
+    """EVERY root once as list content and once as str content, then random wrappers / ignorable lines"""
+    out = []
+    for text in YAML_ROOTS:
+        base = text.split("\n")
+        out.append({"op": "yaml", "ign": False, "base": base, "content": list(base), "intent": "root"})
+        out.append({"op": "yaml", "str": True, "ign": False, "base": text, "content": text, "intent": "root-str"})
+    for _ in range(nrandom):
+        text = rng.choice(YAML_ROOT_WRAP) % rng.choice(YAML_ROOTS)
+        if rng.random() < 0.3:
+            out.append({"op": "yaml", "str": True, "ign": False, "base": text, "content": text, "intent": "root-str"})
+            continue
+        base = text.split("\n")
+        content = list(base)
+        ign = rng.random() < 0.3
+        if ign:
+            content.insert(rng.randint(0, len(content)), rng.choice(IGNORABLE))
+        out.append({"op": "yaml", "ign": ign, "base": base, "content": content, "intent": "root"})
+    return out
+
+
+def yaml_root_kind(case):
+    b = case["base"]
+    try:
+        v = yaml.load(b if isinstance(b, str) else "\n".join(b), Loader=SafeLoader)
+    except BaseException as e:  # noqa
+        return "raises:" + type(e).__name__
+    return "root=" + type(v).__name__ + ("(empty)" if isinstance(v, (dict, list, set, bytes, str)) and not v else "")
+
+
+# ------------------------------------------------------------------ round 10b: stamps that touch further digits / word characters
+# REFERENCE of the oracle for "where is the stamp": the documented table of get_after at the pinned tree, hard-coded here (not read from
+# the implementation): first match of the format's expression in the line, no token boundary
+
+REF_CONVERSION = {
+    'a': r'\w{3}', 'A': r'\w+', 'w': r'[0123456]', 'd': r'([0 ][123456789]|[12]\d|3[01])', 'b': r'\w{3}', 'B': r'\w+',
+    'm': r'([0 ]\d|1[012])', 'y': r'\d{2}', 'Y': r'\d{4}', 'H': r'([01 ]\d|2[0123])', 'I': r'([0 ]?\d|1[012])', 'p': r'\w{2}',
+    'M': r'([012345]\d)', 'S': r'([012345]\d|60)', 'f': r'\d{1,6}',
+}
+_REF_RE = {}
+
+
+def ref_formats(tf):
+    return [tf] if isinstance(tf, str) else list(tf.values()) if isinstance(tf, dict) else list(tf)
+
+
+def ref_stamp(tf, line):
+    """-> None (no stamp in the line) or (matched text, datetime or None when the matched text is no date, the format that read it)"""
+    import re
+    fmts = ref_formats(tf)
+    key = tuple(fmts)
+    if key not in _REF_RE:
+        _REF_RE[key] = re.compile("(" + "|".join(re.sub(r"%(\w)", lambda m: REF_CONVERSION[m.group(1)], f) for f in fmts) + ")")
+    m = _REF_RE[key].search(line)
+    if not m:
+        return None
+    got = (None, None)
+    for f in fmts:                      # the last format that reads the text (documented: "given to strptime in order")
+        try:
+            got = (datetime.datetime.strptime(m.group(0), f), f)
+        except ValueError:
+            pass
+    return (m.group(0), got[0], got[1])
+
+
+GLUE_LEFT = ["", "", "id", "pid12", "x", "7", "00", "_", "é", "T", "2023", "v1."]
+GLUE_RIGHT = ["", "143+00:00", "7", "pid123", "Z", "_x", "0", "123456789", "ms", "99", "+0000", "é"]
+GLUE_FORMATS = []
+
+
+def gen_glued_case(rng):
+    if not GLUE_FORMATS:
+        GLUE_FORMATS.extend(k for k in FORMATS if k not in HIST_FORMATS and k != "timeonly" and FORMATS[k][1][0][0] is not None
+                            and all(r[2] for r in FORMATS[k][1]))
+    fmt = rng.choice(GLUE_FORMATS) if rng.random() < 0.7 else rng.choice([k for k in GLUE_FORMATS if "%f" in json.dumps(FORMATS[k][0]) or k == "micro"] or GLUE_FORMATS)
+    tf = case_time_format({"fmt": fmt})
+    thr = gen_threshold(rng)
+    lines, kinds = [], []
+    cur = thr + datetime.timedelta(days=rng.choice([-20, -3, -1, 0, 0, 1]), seconds=rng.randint(-5000, 5000))
+    for _ in range(rng.choice([1, 2, 3, 5, 8])):
+        if rng.random() < 0.7:
+            cur = cur + datetime.timedelta(seconds=rng.choice([0, 1, 60, 3600, 86400, -86400, 86400 * 3]))
+            t = rng.choice([cur, cur, thr, thr + datetime.timedelta(seconds=rng.choice([-1, 1]))])
+            rend, hy, hd, hm = rng.choice(FORMATS[fmt][1])
+            if not hm:
+                t = t.replace(microsecond=0)
+            stamp_text = rend(t)
+            t2, yy = denoted(rend, t)
+            alone = ref_stamp(tf, stamp_text)
+            if t2 is None or alone is None or alone[1] is None:
+                lines.append({"text": "x", "t": None})
+                continue
+            left, right = rng.choice(GLUE_LEFT), rng.choice(GLUE_RIGHT)
+            pre, msg = rng.choice(PREFIX), rng.choice(MSG)
+            text = pre + left + stamp_text + right + " " + msg
+            got = ref_stamp(tf, text)
+            # the glue may move the first match (digits before %y%m%d ...): keep it only when the reference still reads the SAME
+            # date out of the line, so that the line's own time stamp is known
+            if got is None or got[1] != alone[1] or got[2] != alone[2]:
+                left, right = "", ""
+                text = pre + stamp_text + " " + msg
+                got = ref_stamp(tf, text)
+                if got is None or got[1] != alone[1]:
+                    lines.append({"text": "x", "t": None})
+                    continue
+            kinds.append(("L" if left else "-") + ("R" if right else "-") + ("f" if "%f" in alone[2] and right[:1].isdigit() else ""))
+            lines.append({"text": text, "t": [t2.year, t2.month, t2.day, t2.hour, t2.minute, t2.second, t2.microsecond],
+                          "hy": hy, "hd": hd, "yy": yy})
+        else:
+            msg = rng.choice(MSG)
+            lines.append({"text": msg if ref_stamp(tf, msg) is None else "x", "t": None})
+    s = rng.choice([None, None, None, None, "error", "", ["e"]])
+    return {"op": "after", "fmt": fmt, "thr": [thr.year, thr.month, thr.day, thr.hour, thr.minute, thr.second, thr.microsecond],
+            "s": s, "lines": lines, "glue": kinds}
+
+
 # ------------------------------------------------------------------ witnesses of the known findings
 
 WITNESSES = [
@@ -2238,6 +2387,10 @@ def run(chk):
         c = gen_yaml_case(rng)
         t = "\n".join(c["base"])
         cases.append({"op": "yaml", "str": True, "ign": False, "base": t, "content": t, "intent": "str"})
+    roots = yaml_root_cases(rng, 600 * mult)          # round 10b: every kind of root the safe loader can build
+    for c in roots:
+        chk.count("yaml:root:" + yaml_root_kind(c))
+    cases += roots
     for c in cases:
         chk.case(("yaml", json.dumps(c, sort_keys=True)), bool(c["content"]))
     run_stream(chk, "yaml", cases, doc_tag("yaml"))
@@ -2351,6 +2504,14 @@ def run(chk):
     for c in cases:
         chk.case(("after", json.dumps(c, sort_keys=True)), any(l["t"] for l in c["lines"]))
     run_stream(chk, "get_after-shipped-formats", cases, after_tag)
+    # round 10b: stamps directly adjacent to further digits / letters (longer fractions behind %f, PIDs, serial numbers)
+    def glue_tag(case, out):
+        return after_tag(case, out) + ["glue:%s" % k for k in case.get("glue", [])] + ["glue:format-kind=%s" % type(FORMATS[case["fmt"]][0]).__name__]
+    cases = [gen_glued_case(rng) for _ in range(2000 * mult)]
+    for c in cases:
+        chk.case(("after", json.dumps(c, sort_keys=True)), any(l["t"] for l in c["lines"]))
+    run_stream(chk, "get_after-adjacent", cases, glue_tag)
+    chk.sample({k: (v if k != "lines" else [l["text"] for l in v]) for k, v in cases[0].items()})
     chk.sample({k: (v if k != "lines" else [l["text"] for l in v]) for k, v in cases[7].items()})
 
 
